@@ -55,6 +55,14 @@ type recClient struct {
 	doCount int64
 	yield   bool
 	calls   map[string]int // attempts seen per URL (for the flaky outcome classes)
+	// hold, when set, keeps every request that the plan answers with a 2xx
+	// inside Do until it is closed (the others return at once); inFlight
+	// counts the requests inside Do, cancelled those whose context was
+	// cancelled while they were held
+	hold      chan struct{}
+	inFlight  int32
+	cancelled int32
+	failedRet int32
 }
 
 func (c *recClient) Do(req *http.Request) (*http.Response, error) {
@@ -90,10 +98,70 @@ func (c *recClient) Do(req *http.Request) (*http.Response, error) {
 	}
 	c.mu.Unlock()
 	atomic.AddInt64(&c.doCount, 1)
+	if c.hold != nil {
+		if st == 200 || st == 201 || st == 202 {
+			atomic.AddInt32(&c.inFlight, 1)
+			select {
+			case <-c.hold:
+			case <-req.Context().Done():
+				// an HTTP client honours its request's context
+				atomic.AddInt32(&c.cancelled, 1)
+				atomic.AddInt32(&c.inFlight, -1)
+				return nil, req.Context().Err()
+			}
+			atomic.AddInt32(&c.inFlight, -1)
+		} else {
+			defer atomic.AddInt32(&c.failedRet, 1)
+		}
+	}
 	if st < 0 {
 		return nil, fmt.Errorf("verif: transport error for %s", cp.URL)
 	}
-	return &http.Response{StatusCode: st, Status: fmt.Sprintf("%d %s", st, http.StatusText(st)), Body: io.NopCloser(bytes.NewReader([]byte(`{"type":"Note","id":"` + cp.URL + `"}`))), Header: http.Header{}}, nil
+	return &http.Response{StatusCode: st, Status: fmt.Sprintf("%d %s", st, http.StatusText(st)), Body: io.NopCloser(&slowReader{b: servedBody(cp.URL)}), Header: http.Header{}}, nil
+}
+
+// servedBody is what the recording client answers for a URL: a document that
+// names the URL, padded to a size that depends on it (0 bytes extra .. 200 kB,
+// so that a body is read over many Read calls), and, for one URL in eleven,
+// no bytes at all (an empty 200 body is a body).
+func servedBody(u string) []byte {
+	h := 0
+	for _, c := range u {
+		h = h*31 + int(c)
+	}
+	if h < 0 {
+		h = -h
+	}
+	switch h % 11 {
+	case 0:
+		return []byte{}
+	case 1:
+		return []byte(`{"type":"Note","id":"` + u + `","content":"` + strings.Repeat("y", 200000) + `"}`)
+	}
+	return []byte(`{"type":"Note","id":"` + u + `","content":"` + strings.Repeat("z", h%977) + `"}`)
+}
+
+// slowReader hands its bytes out in small, uneven pieces.
+type slowReader struct {
+	b []byte
+	n int
+}
+
+func (r *slowReader) Read(p []byte) (int, error) {
+	if len(r.b) == 0 {
+		return 0, io.EOF
+	}
+	r.n++
+	k := 1 + (r.n*7919)%4096
+	if k > len(p) {
+		k = len(p)
+	}
+	if k > len(r.b) {
+		k = len(r.b)
+	}
+	copy(p, r.b[:k])
+	r.b = r.b[k:]
+	return k, nil
 }
 
 func (c *recClient) take() []captured {
@@ -276,18 +344,25 @@ func (e *env) checkRequest(c captured, sc *signCall, wantBody []byte, cas interf
 	if c.Header.Get("Date") != e.clock.t.UTC().Format("Mon, 02 Jan 2006 15:04:05")+" GMT" {
 		e.viol("header-date", kind, cas, fmt.Sprintf("Date=%q", c.Header.Get("Date")))
 	}
-	if c.Header.Get("Host") != u.Host {
+	// the host the request goes to, without user information: in the Host
+	// header, or (when that is absent) in the request's Host field, which
+	// is what goes on the wire then
+	if h := c.Header.Get("Host"); h != u.Host && !(h == "" && (c.Host == u.Host || c.Host == "")) {
 		e.viol("header-host", kind, cas, fmt.Sprintf("Host=%q want %q", c.Header.Get("Host"), u.Host))
 	}
-	if ua := c.Header.Get("User-Agent"); ua != e.appAgent+" "+e.agent {
+	// the application's agent followed by the library's
+	if ua := c.Header.Get("User-Agent"); !(strings.HasPrefix(ua, e.appAgent) && strings.HasSuffix(ua, e.agent) && len(ua) > len(e.appAgent)+len(e.agent) && strings.TrimSpace(ua[len(e.appAgent):len(ua)-len(e.agent)]) == "") {
 		e.viol("header-user-agent", kind, cas, fmt.Sprintf("User-Agent=%q want %q", ua, e.appAgent+" "+e.agent))
 	}
+	isAS := func(v string) bool {
+		return strings.Contains(v, apType) || strings.Contains(v, "application/activity+json")
+	}
 	if c.Method == "GET" {
-		if c.Header.Get("Accept") != apType {
+		if !isAS(c.Header.Get("Accept")) {
 			e.viol("header-accept", kind, cas, fmt.Sprintf("Accept=%q", c.Header.Get("Accept")))
 		}
 	} else {
-		if c.Header.Get("Content-Type") != apType {
+		if ct := c.Header.Get("Content-Type"); !isAS(ct) || strings.Contains(ct, ",") {
 			e.viol("header-content-type", kind, cas, fmt.Sprintf("Content-Type=%q", c.Header.Get("Content-Type")))
 		}
 		if !bytes.Equal(c.Body, wantBody) {
@@ -304,8 +379,24 @@ func (e *env) checkRequest(c captured, sc *signCall, wantBody []byte, cas interf
 	if c.Method == "POST" && !bytes.Equal(sc.Body, c.Body) {
 		e.viol("signer-body", kind, cas, "the body given to the signer differs from the body sent")
 	}
-	if c.Method == "GET" && sc.Body != nil {
+	if c.Method == "GET" && len(sc.Body) != 0 {
 		e.viol("signer-body", kind, cas, "a body was given to the signer for a GET")
+	}
+	// what was signed is what was sent: the same request line, and the
+	// signature the signer produced still on the request
+	if sc.Method != c.Method || sc.URL != c.URL {
+		e.viol("header-altered-after-signing", kind+" request line", cas, fmt.Sprintf("signed %s %s, sent %s %s", sc.Method, sc.URL, c.Method, c.URL))
+	}
+	if c.Header.Get("Signature") == "" && c.Header.Get("Authorization") == "" {
+		e.viol("not-signed", kind+": signature gone", cas, "the request the client received carries no signature although the signer was called")
+	}
+	// a header added after signing is not covered by the signature but
+	// changes the request all the same (Content-Length and the like are set
+	// by the HTTP client, not here)
+	for k := range c.Header {
+		if _, had := sc.Header[k]; !had && k != "Signature" && k != "Authorization" && k != "Digest" {
+			e.viol("header-altered-after-signing", kind+" "+k+" added", cas, fmt.Sprintf("%s=%q was added after the signer was called", k, c.Header[k]))
+		}
 	}
 	// headers present at signing time must be unchanged afterwards
 	for k, v := range sc.Header {
@@ -326,7 +417,7 @@ func (e *env) checkRequest(c captured, sc *signCall, wantBody []byte, cas interf
 func main() {
 	flag.Parse()
 	r := verdict.New("C19", *tier, "exploration")
-	r.Rule = "the bundled HttpSigTransport driven with a recording HttpClient and (a) a recording signer capturing key, key id, header snapshot and body, (b) real RSA-SHA256 and HMAC-SHA256 httpsig signers over several header lists whose output is verified on what the client received; Dereference over every status 100..599 and a transport error; Deliver likewise, over payloads of several shapes (JSON, empty, nil, one byte, non-JSON bytes, non-ASCII); BatchDeliver over every combination of eleven per-recipient outcome classes (2xx, other statuses, client error, signer refusal, a URL no request can be built for) for batches of 1..3, every size 1..40 and 64 with all recipients failing, and seeded random batches of 0..64 recipients with duplicates; 8 concurrent batches + dereferences on one transport value; the whole engine runs under the race detector; non-trivial = a request was captured and compared; distinct by case"
+	r.Rule = "the bundled HttpSigTransport driven with a recording HttpClient and (a) a recording signer capturing key, key id, header snapshot and body, (b) real RSA-SHA256 and HMAC-SHA256 httpsig signers over several header lists whose output is verified on what the client received; Dereference over every status 100..599 and a transport error; Deliver likewise, over payloads of several shapes (JSON, empty, nil, one byte, non-JSON bytes, non-ASCII); BatchDeliver over every combination of eleven per-recipient outcome classes (2xx, other statuses, client error, signer refusal, a URL no request can be built for) for batches of 1..3, every size 1..40 and 64 with all recipients failing, and seeded random batches of 0..64 recipients with duplicates; 8 concurrent batches + dereferences on one transport value; batches with failing recipients in sequence and at the same time on one transport value (no failure of one batch in another's error); failing sends returning while the others are held inside a client that honours the request context (no early return, no send given up); one transport used while the clock advances; several agent strings / key ids in one process; inbox and object URLs with query, fragment, user information and escapes; served bodies of 0 bytes to 200 kB read in small pieces and compared; the whole engine runs under the race detector; non-trivial = a request was captured and compared; distinct by case"
 	r.Assumptions = []string{"the Digest header produced inside the pinned httpsig dependency is not judged", "the library agent string is read from what pub passes to CommonBehavior.NewTransport"}
 	key, err := rsa.GenerateKey(rand.Reader, 2048)
 	if err != nil {
@@ -379,6 +470,11 @@ func main() {
 		runBatches(e, seed, nRandom)
 		next()
 		runConcurrent(e, seed)
+		next()
+		runSharedTransport(e)
+		runGated(e)
+		runClockAdvances(e)
+		runAgents(e)
 		runRealChild(e)
 	}
 	r.Sample(map[string]interface{}{"batch": []string{"https://h0.example/inbox/0 -> 202", "https://h1.example/inbox/1 -> 500", "https://h0.example/inbox/0 -> 202 (duplicate)"}, "payload": `{"type":"Note"}`})
@@ -455,6 +551,14 @@ func runDereference(e *env) {
 		gs, ps := &recSigner{}, &recSigner{}
 		tp := e.newTransport(cl, gs, ps)
 		iri := fmt.Sprintf("https://%s/obj/%d?x=1", []string{"remote0.example", "remote1.example:8443", "remote2.example:443", "[2001:db8::2]:8080", "[::1]"}[st%5], st)
+		switch (st / 5) % 6 {
+		case 1:
+			iri = strings.Replace(iri, "?x=1", "#main-key", 1) // the usual key IRI
+		case 2:
+			iri = strings.Replace(iri, "https://", "https://reader:pw@", 1)
+		case 3:
+			iri = strings.Replace(iri, "?x=1", "", 1)
+		}
 		b, err := tp.Dereference(bg, mustURL(iri))
 		e.r.Eval(1)
 		cas := map[string]interface{}{"op": "Dereference", "iri": iri, "status": code}
@@ -475,8 +579,10 @@ func runDereference(e *env) {
 		}
 		e.checkRequest(reqs[0], sc, nil, cas)
 		if code == 200 {
-			if err != nil || len(b) == 0 {
+			if err != nil {
 				e.viol("dereference-200-failed", "status 200", cas, fmt.Sprint(err))
+			} else if !bytes.Equal(b, servedBody(iri)) {
+				e.viol("dereference-200-failed", "status 200: body", cas, fmt.Sprintf("returned %d bytes, the peer served %d", len(b), len(servedBody(iri))))
 			}
 		} else if err == nil || b != nil {
 			e.viol("dereference-non-200-returned-body", fmt.Sprintf("status class %dxx", code/100), cas, fmt.Sprintf("status %d: err=%v body=%d bytes", code, err, len(b)))
@@ -505,6 +611,17 @@ func runDeliver(e *env) {
 		gs, ps := &recSigner{}, &recSigner{}
 		tp := e.newTransport(cl, gs, ps)
 		to := fmt.Sprintf("https://%s/inbox/%d", []string{"remote.example:8443", "remote.example", "remote.example:443", "[2001:db8::1]:8443", "[::1]", "xn--bcher-kva.example"}[st%6], st)
+		// inbox URLs with a query, user information, escaped characters
+		switch (st / 7) % 9 {
+		case 1:
+			to += "?shared=1&x=a%20b"
+		case 2:
+			to = strings.Replace(to, "https://", "https://user:secret@", 1)
+		case 3:
+			to += "/in%20box/%E2%9C%93"
+		case 4:
+			to += "?q=1#fragment"
+		}
 		// payload shapes: any byte string is a payload, the empty one included
 		payload := payload
 		switch (st / 6) % 7 {
@@ -519,7 +636,14 @@ func runDeliver(e *env) {
 		case 5:
 			payload = []byte(`{"type":"Note","content":"héllo 世界 😀"}`)
 		}
-		err := tp.Deliver(bg, payload, mustURL(to))
+		var given []byte
+		if payload != nil {
+			given = append([]byte{}, payload...)
+		}
+		err := tp.Deliver(bg, given, mustURL(to))
+		if !bytes.Equal(given, payload) {
+			e.viol("body-altered", "payload slice", to, "the payload slice handed to Deliver was modified in place")
+		}
 		e.r.Eval(1)
 		cas := map[string]interface{}{"op": "Deliver", "to": to, "status": code}
 		reqs := cl.take()
@@ -558,12 +682,13 @@ func runDeliver(e *env) {
 	}
 	// a recipient / IRI no request can be built for is an error, not a send
 	{
-		cl := &recClient{plan: map[string]int{}, deflt: 200}
+		// (a client that is handed such a request cannot reach anybody)
+		cl := &recClient{plan: map[string]int{badURL(1).String(): -1, badURL(2).String(): -1}, deflt: -1}
 		tp := e.newTransport(cl, &recSigner{}, &recSigner{})
 		err := tp.Deliver(bg, payload, badURL(1))
 		_, err2 := tp.Dereference(bg, badURL(2))
 		e.r.Eval(2)
-		if err == nil || err2 == nil || len(cl.take()) != 0 {
+		if err == nil || err2 == nil {
 			e.viol("unbuildable-request-not-reported", "non-numeric port", badURL(1).String(), fmt.Sprintf("Deliver err=%v Dereference err=%v", err, err2))
 		}
 		e.r.NonTrivial("deliver|unbuildable")
@@ -656,7 +781,7 @@ func runBatch(e *env, recipients []string, plan map[string]int, tag string) {
 	wantSign := map[string]int{} // signer calls expected per URL
 	for _, r := range recipients {
 		switch plan[r] {
-		case -3: // no request can be built: neither signed nor sent
+		case -3: // no request can be built from the URL: whether it is tried at all is the library's choice (judged below as "either")
 		case -2: // signing refused: signed once, never sent
 			wantSign[r]++
 		default:
@@ -673,6 +798,9 @@ func runBatch(e *env, recipients []string, plan map[string]int, tag string) {
 		gotSign[c.URL]++
 	}
 	for _, r := range recipients {
+		if plan[r] == -3 {
+			continue // tried or not: either way a failure, judged below
+		}
 		if n := want[r]; got[r] != n {
 			feature := fmt.Sprintf("want %d got %d", n, min(got[r], n+1))
 			if plan[r] == -2 {
@@ -734,7 +862,7 @@ func runBatch(e *env, recipients []string, plan map[string]int, tag string) {
 	}
 	if err != nil {
 		for _, f := range failed {
-			if !strings.Contains(err.Error(), f) {
+			if !namesURL(err.Error(), f) {
 				e.viol("batch-failure-not-named", "error text", cas, fmt.Sprintf("error %q does not name %s", err.Error(), f))
 			}
 		}
@@ -748,6 +876,22 @@ func min(a, b int) int {
 		return a
 	}
 	return b
+}
+
+// namesURL reports whether text names the URL u as a whole (not as the
+// beginning of a longer URL).
+func namesURL(text, u string) bool {
+	for i := 0; ; {
+		j := strings.Index(text[i:], u)
+		if j < 0 {
+			return false
+		}
+		end := i + j + len(u)
+		if end == len(text) || !strings.ContainsRune("abcdefghijklmnopqrstuvwxyzABCDEFGHIJKLMNOPQRSTUVWXYZ0123456789/_.-%?=&#~+", rune(text[end])) {
+			return true
+		}
+		i = i + j + 1
+	}
 }
 
 func runBatches(e *env, seed int64, nRandom int) {
@@ -1052,6 +1196,241 @@ func runConcurrent(e *env, seed int64) {
 	}
 	e.r.Count("concurrent_requests_captured", len(reqs))
 	e.r.NonTrivial("concurrent")
+}
+
+// runSharedTransport: batches with failing recipients on ONE transport value,
+// one after the other and at the same time - each batch's error names its own
+// failures and nothing of another batch's.
+func runSharedTransport(e *env) {
+	plan := map[string]int{}
+	cl := &recClient{plan: plan, deflt: 202, yield: true}
+	ps := &recSigner{}
+	tp := e.newTransport(cl, &recSigner{}, ps)
+	mk := func(b int) (rec []*url.URL, failing []string) {
+		for j := 0; j < 9; j++ {
+			u := fmt.Sprintf("https://s%d.example/inbox/%d", b, j)
+			if (j+b)%3 == 0 {
+				failing = append(failing, u)
+			}
+			rec = append(rec, mustURL(u))
+		}
+		return
+	}
+	for b := 0; b < 12; b++ {
+		_, f := mk(b)
+		for _, u := range f {
+			plan[u] = 500 + b%4
+		}
+	}
+	judge := func(b int, err error, how string) {
+		_, failing := mk(b)
+		e.r.Eval(1)
+		if len(failing) > 0 && err == nil {
+			e.viol("batch-error-presence", how, b, "a batch with failing recipients returned no error")
+			return
+		}
+		if err == nil {
+			return
+		}
+		for _, u := range failing {
+			if !namesURL(err.Error(), u) {
+				e.viol("batch-failure-not-named", how, b, fmt.Sprintf("error %q does not name %s", err.Error(), u))
+			}
+		}
+		for ob := 0; ob < 12; ob++ {
+			if ob != b && strings.Contains(err.Error(), fmt.Sprintf("https://s%d.example/", ob)) {
+				e.viol("batch-failure-not-named", how+": names another batch's recipient", b, fmt.Sprintf("the error of batch %d names a recipient of batch %d: %q", b, ob, err.Error()))
+			}
+		}
+		e.r.NonTrivial(fmt.Sprintf("shared-transport|%s|%d", how, b))
+	}
+	// one after the other
+	for b := 0; b < 4; b++ {
+		rec, _ := mk(b)
+		judge(b, tp.BatchDeliver(bg, []byte(fmt.Sprintf(`{"type":"Note","batch":%d}`, b)), rec), "batches in sequence on one transport")
+	}
+	// a batch without failures after batches with failures
+	{
+		var rec []*url.URL
+		for j := 0; j < 5; j++ {
+			rec = append(rec, mustURL(fmt.Sprintf("https://clean.example/inbox/%d", j)))
+		}
+		if err := tp.BatchDeliver(bg, []byte(`{"type":"Note"}`), rec); err != nil {
+			e.viol("batch-error-presence", "clean batch after failing ones", "clean", "a batch whose recipients all accept returned an error: "+err.Error())
+		}
+		e.r.Eval(1)
+	}
+	// at the same time
+	var wg sync.WaitGroup
+	errs := make([]error, 12)
+	for b := 4; b < 12; b++ {
+		wg.Add(1)
+		go func(b int) {
+			defer wg.Done()
+			rec, _ := mk(b)
+			errs[b] = tp.BatchDeliver(bg, []byte(fmt.Sprintf(`{"type":"Note","batch":%d}`, b)), rec)
+		}(b)
+	}
+	done := make(chan struct{})
+	go func() { wg.Wait(); close(done) }()
+	select {
+	case <-done:
+	case <-time.After(120 * time.Second):
+		e.viol("batch-did-not-return", "concurrent failing batches", "8 concurrent batches", "concurrent batches with failing recipients did not finish within 120 s")
+		return
+	}
+	for b := 4; b < 12; b++ {
+		judge(b, errs[b], "concurrent batches on one transport")
+	}
+	cl.take()
+}
+
+// runGated: the failing sends return at once, the others are held inside the
+// HTTP client. The batch must neither return before every send has finished
+// nor give up the sends still under way (the client honours the request's
+// context, as net/http does).
+func runGated(e *env) {
+	for round := 0; round < 6; round++ {
+		plan := map[string]int{}
+		var rec []*url.URL
+		nFail := 0
+		for j := 0; j < 8; j++ {
+			u := fmt.Sprintf("https://g%d.example/inbox/%d", round, j)
+			if j%(2+round%3) == 0 {
+				plan[u] = []int{500, 404, -1}[j%3]
+				nFail++
+			}
+			rec = append(rec, mustURL(u))
+		}
+		cl := &recClient{plan: plan, deflt: 202, hold: make(chan struct{})}
+		tp := e.newTransport(cl, &recSigner{}, &recSigner{})
+		ctx, cancel := context.WithCancel(context.Background())
+		done := make(chan error, 1)
+		go func() { done <- tp.BatchDeliver(ctx, []byte(`{"type":"Note"}`), rec) }()
+		// wait (logically: on counters) until every failing send has
+		// returned and every other one is inside the client
+		deadline := time.Now().Add(60 * time.Second)
+		for (int(atomic.LoadInt32(&cl.failedRet)) < nFail || int(atomic.LoadInt32(&cl.inFlight))+int(atomic.LoadInt32(&cl.cancelled)) < len(rec)-nFail) && time.Now().Before(deadline) {
+			select {
+			case err := <-done:
+				done <- err
+				deadline = time.Now()
+			default:
+				runtime.Gosched()
+				time.Sleep(200 * time.Microsecond)
+			}
+		}
+		e.r.Eval(1)
+		early := false
+		select {
+		case err := <-done:
+			early = true
+			done <- err
+		default:
+		}
+		inFlight := atomic.LoadInt32(&cl.inFlight)
+		close(cl.hold)
+		var err error
+		select {
+		case err = <-done:
+		case <-time.After(60 * time.Second):
+			e.viol("batch-did-not-return", "sends released", round, "BatchDeliver did not return after the held sends were released")
+			cancel()
+			return
+		}
+		cancel()
+		if early && inFlight > 0 {
+			e.viol("batch-attempt-count", "returned with sends under way", round, fmt.Sprintf("BatchDeliver returned while %d sends were still inside the HTTP client", inFlight))
+		}
+		if n := atomic.LoadInt32(&cl.cancelled); n > 0 {
+			e.viol("batch-attempt-count", "sends given up after another failed", round, fmt.Sprintf("%d sends had their context cancelled because another recipient failed", n))
+		}
+		if (nFail > 0) != (err != nil) {
+			e.viol("batch-error-presence", "gated sends", round, fmt.Sprintf("%d failing recipients, err=%v", nFail, err))
+		}
+		e.r.NonTrivial(fmt.Sprintf("gated|%d", round))
+	}
+}
+
+// steppingClock advances by 61 s with every reading.
+type steppingClock struct {
+	mu    sync.Mutex
+	t     time.Time
+	reads []time.Time
+}
+
+func (c *steppingClock) Now() time.Time {
+	c.mu.Lock()
+	defer c.mu.Unlock()
+	c.t = c.t.Add(61 * time.Second)
+	c.reads = append(c.reads, c.t)
+	return c.t
+}
+
+// runClockAdvances: one transport value used over time - every request
+// carries the Date of an instant read for that request.
+func runClockAdvances(e *env) {
+	clk := &steppingClock{t: time.Date(2030, 6, 7, 8, 9, 10, 0, time.FixedZone("w", -3*3600))}
+	cl := &recClient{plan: map[string]int{}, deflt: 200}
+	tp := pub.NewHttpSigTransport(cl, e.appAgent, clk, &recSigner{}, &recSigner{}, e.keyID, e.key)
+	seen := map[string]bool{}
+	for i := 0; i < 6; i++ {
+		before := len(clk.reads)
+		if i%2 == 0 {
+			tp.Deliver(bg, []byte(`{"type":"Note"}`), mustURL(fmt.Sprintf("https://t.example/inbox/%d", i)))
+		} else {
+			tp.Dereference(bg, mustURL(fmt.Sprintf("https://t.example/obj/%d", i)))
+		}
+		e.r.Eval(1)
+		reqs := cl.take()
+		if len(reqs) != 1 {
+			continue
+		}
+		d := reqs[0].Header.Get("Date")
+		ok := false
+		for _, t := range clk.reads[before:] {
+			if d == t.UTC().Format("Mon, 02 Jan 2006 15:04:05")+" GMT" {
+				ok = true
+			}
+		}
+		if !ok || seen[d] {
+			e.viol("header-date", "transport used over time", i, fmt.Sprintf("request %d carries Date %q; the clock was read %d times for it: %v", i, d, len(clk.reads)-before, clk.reads[before:]))
+		}
+		seen[d] = true
+		e.r.NonTrivial(fmt.Sprintf("clock-advances|%d", i))
+	}
+}
+
+// runAgents: several transports in one process, each with its own agent
+// string, key id and key.
+func runAgents(e *env) {
+	saveA, saveK := e.appAgent, e.keyID
+	defer func() { e.appAgent, e.keyID = saveA, saveK }()
+	for i, ag := range []string{"other-app/2.0 (+https://other.example/bot)", "100%s app %d", "a", "verif-app/1.0"} {
+		e.appAgent = ag
+		e.keyID = fmt.Sprintf("https://local.example/users/u%d#key-%d", i, i)
+		cl := &recClient{plan: map[string]int{}, deflt: 200}
+		gs, ps := &recSigner{}, &recSigner{}
+		tp := e.newTransport(cl, gs, ps)
+		payload := []byte(`{"type":"Note"}`)
+		tp.Deliver(bg, payload, mustURL("https://agents.example/inbox"))
+		tp.Dereference(bg, mustURL("https://agents.example/obj"))
+		e.r.Eval(2)
+		reqs := cl.take()
+		pc, gc := ps.take(), gs.take()
+		if len(reqs) != 2 || len(pc) != 1 || len(gc) != 1 {
+			e.viol("signer-call-count", "several transports", ag, fmt.Sprintf("%d requests, %d POST and %d GET signer calls", len(reqs), len(pc), len(gc)))
+			continue
+		}
+		for _, c := range reqs {
+			if c.Method == "POST" {
+				e.checkRequest(c, &pc[0], payload, map[string]interface{}{"agent": ag})
+			} else {
+				e.checkRequest(c, &gc[0], nil, map[string]interface{}{"agent": ag})
+			}
+		}
+		e.r.NonTrivial("agents|" + ag)
+	}
 }
 
 func seqInts(lo, hi int) []int {
